@@ -12,6 +12,8 @@
 # See the License for the specific language governing permissions and
 # limitations under the License.
 
+import copy
+
 from .node import ConfigNode
 from ..namespace import Namespace, staticproperty
 from ..utils import notnone_or
@@ -356,6 +358,20 @@ class ComposedNode(ConfigNode):
     def _recreate(cls):
         new = cls.__new__(cls)
         new._children = {}
+        return new
+
+    def __deepcopy__(self, memo):
+        # attach the copies of the children before the state is restored (the order unpickling uses): a node that already has its flags
+        # re-derives what an attached child inherits, while a copy has to keep exactly what the original nodes recorded
+        new = ComposedNode._recreate(type(self))
+        memo[id(self)] = new
+        if isinstance(self, list):
+            for item in self:
+                new.append(copy.deepcopy(item, memo))
+        elif isinstance(self, dict):
+            for key, value in self.items():
+                new[copy.deepcopy(key, memo)] = copy.deepcopy(value, memo)
+        new.__setstate__(copy.deepcopy(self.__getstate__(), memo))
         return new
 
     def __reduce__(self):
